@@ -587,6 +587,8 @@ impl ClientRun {
                 FaultKind::WrongSerial => "fault.wrong_serial",
                 FaultKind::EpipeAfter => "fault.epipe_after",
                 FaultKind::StallMid(_) => "fault.stall_mid_frame",
+                FaultKind::IdentityAbort(_) => "fault.identity_abort",
+                FaultKind::StaleAfter(_) => "fault.stale_bytes_after_frame",
             });
         }
         stats.add("probe.duplicate_reservation", pt.duplicate_reservations);
